@@ -4,7 +4,10 @@
    Where the faithful model refutes the property the witness is a theorem and
    the finding is listed in KNOWN_FINDINGS.txt. *)
 From Coq Require Import NArith ZArith List Bool String.
-From FitV Require Import Model.Values Model.Profile Model.Components Spec.ComponentSpec Proofs.ComponentProofs.
+From FitV Require Import Model.Values Model.Bytes Model.Profile Model.IO Model.Header Model.Components Model.Route Model.Decode
+  Spec.FitSyntax Spec.RouteSpec Spec.ComponentSpec Proofs.ComponentProofs
+  Proofs.C18Defs Proofs.C18Good Proofs.C18Messages Proofs.C18Main
+  Proofs.StreamDenoteDefs Proofs.StreamDenoteLift Proofs.StreamDenoteMain Proofs.StreamDenoteFrame Proofs.StreamDenoteDecode.
 Import ListNotations.
 Local Open Scope N_scope.
 
@@ -57,6 +60,156 @@ Theorem C18_zero_mask_accumulates_nothing : forall vals a, ac_mask a = 0 -> ac_v
 Proof. exact zero_mask_accumulates_nothing. Qed.
 Theorem C18_total_cycles_refuted : exists vals, run_accum zero_accum vals <> spec_accumulate 8 vals.
 Proof. exact total_cycles_refuted. Qed.
+
+(* ---------------------------------------------------------------------------------------------------------
+   On whole streams (vocabulary: Proofs/C18Defs.v; the stream machinery is C02's decode_denote).
+     stored_run ft g ms   File.add's treatment of a message sequence: every message of a type the container expands
+                          replaced by expand_components of it, in stream order, threading the accumulator state g;
+     good m               a message as the reference semantics denotes it: as many fields as its struct, and a
+                          compressed_speed_distance field holding bytes.
+   --------------------------------------------------------------------------------------------------------- *)
+
+(* C18_stream_expanded: for every stream in the domain of decode_denote, through any reader, from ANY accumulator state g,
+   every slot of the container proper in the File Decode returns holds the denoted messages of its type with
+   expand_components applied in stream order, g threaded; Decode leaves the threaded state behind *)
+Theorem C18_stream_expanded : forall o g rd fuel h rs ss1 f2 g1 extra,
+  header_wf h -> h_dsize h = N.of_nat (List.length (ser_records rs)) ->
+  starts_with_file_id rs = true -> stream_wf rs = true -> denote rs = Some ss1 ->
+  start_file h g (hd dummy_msg (ss_msgs ss1)) = Some (f2, g1) ->
+  rd_data rd = fit_file h rs ++ extra ->
+  (List.length (rd_data rd) + List.length (rd_sched rd) < fuel)%nat ->
+  exists rd' file' g' q ft m0 ms sm,
+    entry_Decode o g rd fuel = TDone (mk_dres None h (Some file') rd' g' q) /\
+    ss_msgs ss1 = m0 :: ms /\ Forall good ms /\
+    In ft valid_file_types /\ f_inited file' = Some ft /\
+    stored_run ft g ms = Some (sm, g') /\
+    forall i name multi held, nth_error (slots_of ft) i = Some (name, multi, held) -> (NCOMMON <= i)%nat ->
+      nth i (f_slots file') [] = slot_contents multi held [] sm.
+Proof. exact stream_expanded. Qed.
+Print Assumptions C18_stream_expanded.
+
+(* per-field corollaries of one expansion, for every message of the shape the decoder produces.  Record: the enhanced
+   field is the 16-bit source the record CARRIES when valid and untouched when 0xFFFF (the speed derived from
+   compressed_speed_distance is written to Speed afterwards and is not re-expanded: the code's order, known finding) *)
+Theorem C18_record_enhanced_speed : forall g m, m_num m = Gen.Consts.c_MesgNumRecord -> msg_shape m ->
+  uval (fld m "Speed") < 65536 ->
+  uval (fld (fst (expand_record g m)) "EnhancedSpeed") =
+    spec_enhanced (uval (fld m "Speed")) (uval (fld m "EnhancedSpeed")).
+Proof. exact record_enhanced_speed. Qed.
+Theorem C18_record_enhanced_altitude : forall g m, m_num m = Gen.Consts.c_MesgNumRecord -> msg_shape m ->
+  uval (fld m "Altitude") < 65536 ->
+  uval (fld (fst (expand_record g m)) "EnhancedAltitude") =
+    spec_enhanced (uval (fld m "Altitude")) (uval (fld m "EnhancedAltitude")).
+Proof. exact record_enhanced_altitude. Qed.
+(* session and lap: the five (source, enhanced) pairs; segment_lap: the three altitude pairs *)
+Theorem C18_session_lap_enhanced : forall m src dst,
+  m_num m = Gen.Consts.c_MesgNumSession \/ m_num m = Gen.Consts.c_MesgNumLap -> msg_shape m ->
+  In (src, dst) session_lap_pairs -> uval (fld m src) < 65536 ->
+  uval (fld (expand_session_lap m) dst) = spec_enhanced (uval (fld m src)) (uval (fld m dst)).
+Proof. exact session_lap_enhanced. Qed.
+Theorem C18_segment_lap_enhanced : forall m src dst,
+  m_num m = Gen.Consts.c_MesgNumSegmentLap -> msg_shape m ->
+  In (src, dst) segment_lap_pairs -> uval (fld m src) < 65536 ->
+  uval (fld (expand_segment_lap m) dst) = spec_enhanced (uval (fld m src)) (uval (fld m dst)).
+Proof. exact segment_lap_enhanced. Qed.
+(* event: data16 -> data, then the slices of sport_point *)
+Theorem C18_event_data_field : forall m, m_num m = Gen.Consts.c_MesgNumEvent -> msg_shape m ->
+  fld (expand_event m) "Data" =
+    if uval (fld m "Data16") =? 0xFFFF then fld m "Data" else VU (N.land (uval (fld m "Data16")) 0xFFFF).
+Proof. exact event_data_field. Qed.
+Theorem C18_event_sport_point : forall m, m_num m = Gen.Consts.c_MesgNumEvent -> msg_shape m ->
+  uval (fld m "Event") = Gen.Consts.c_EventSportPoint -> uval (fld m "Data") < 2 ^ 32 -> event_data m <> 0xFFFFFFFF ->
+  fld (expand_event m) "Score" = VU (spec_score (event_data m)) /\
+  fld (expand_event m) "OpponentScore" = VU (spec_opponent_score (event_data m)).
+Proof. exact event_sport_point. Qed.
+(* record, compressed_speed_distance: a valid source sets Speed and Distance and moves the distance accumulator;
+   an invalid one (FF FF FF, or absent) leaves both fields and the accumulator untouched *)
+Theorem C18_record_csd_valid : forall g m b0 b1 b2, m_num m = Gen.Consts.c_MesgNumRecord -> msg_shape m ->
+  csd_bytes m = [b0; b1; b2] -> csd_valid m = true ->
+  fld (fst (expand_record g m)) "Distance" =
+    VU (fst (accumulate (get_acc (g_dist g) (new_accum 12)) (model_csd_distance_raw b1 b2))) /\
+  (b0 < 256 -> b1 < 256 -> fld (fst (expand_record g m)) "Speed" = VU (spec_csd_speed b0 b1)) /\
+  g_dist (snd (expand_record g m)) =
+    Some (snd (accumulate (get_acc (g_dist g) (new_accum 12)) (model_csd_distance_raw b1 b2))).
+Proof. exact record_csd_valid. Qed.
+Theorem C18_record_csd_invalid : forall g m, m_num m = Gen.Consts.c_MesgNumRecord -> csd_valid m = false ->
+  fld (fst (expand_record g m)) "Distance" = fld m "Distance" /\
+  fld (fst (expand_record g m)) "Speed" = fld m "Speed" /\
+  g_dist (snd (expand_record g m)) = g_dist g.
+Proof. exact record_csd_invalid. Qed.
+Print Assumptions C18_record_csd_valid.
+
+(* C18_stream_distance: decoding, from a state whose distance accumulator is fresh (g_init: a fresh process), a stream in the
+   domain of decode_denote: in the record slot, the Distance fields at the records whose source is valid are
+   spec_accumulate 12 of the raw distances -- the running sum of rollover-corrected deltas since the start of the file --
+   the records with an invalid source keep the Distance they carried; with all sources valid the whole Distance
+   column is spec_accumulate 12 (raws); raw = model_csd_distance_raw, which is the property's b1/16 + 16*b2 when the
+   high nibble of the third byte is clear (known finding csd_high_nibble otherwise) *)
+Theorem C18_stream_distance : forall o g rd fuel h rs ss1 f2 g1 extra,
+  header_wf h -> h_dsize h = N.of_nat (List.length (ser_records rs)) ->
+  starts_with_file_id rs = true -> stream_wf rs = true -> denote rs = Some ss1 ->
+  start_file h g (hd dummy_msg (ss_msgs ss1)) = Some (f2, g1) ->
+  rd_data rd = fit_file h rs ++ extra ->
+  (List.length (rd_data rd) + List.length (rd_sched rd) < fuel)%nat ->
+  g_dist g = None ->
+  exists rd' file' g' q ft m0 ms,
+    entry_Decode o g rd fuel = TDone (mk_dres None h (Some file') rd' g' q) /\
+    ss_msgs ss1 = m0 :: ms /\ f_inited file' = Some ft /\
+    forall i, find_slot ft Gen.Consts.c_MesgNumRecord = Some (i, true) -> (NCOMMON <= i)%nat ->
+      let recs := nth i (f_slots file') [] in
+      let src := filter is_record ms in
+      List.length recs = List.length src /\
+      pick_valid src (map distance_of recs) = spec_accumulate 12 (map raw_of (filter csd_valid src)) /\
+      leave_invalid src (map distance_of recs) = map distance_of (filter (fun m => negb (csd_valid m)) src) /\
+      (Forall (fun m => is_record m = true -> csd_valid m = true) ms ->
+         map distance_of recs = spec_accumulate 12 (map raw_of src)) /\
+      (Forall (fun m => is_record m = true -> csd_valid m = true) ms ->
+       Forall (fun m => is_record m = true -> nth 2 (csd_bytes m) 0 < 16) ms ->
+         map distance_of recs = spec_accumulate 12 (map spec_raw_of src)).
+Proof. exact stream_distance. Qed.
+Print Assumptions C18_stream_distance.
+
+(* from an arbitrary state the sum continues from what the previous file of the process left, and the state handed on
+   is the accumulator run over this file's valid sources *)
+Theorem C18_stream_distance_from_state : forall o g rd fuel h rs ss1 f2 g1 extra,
+  header_wf h -> h_dsize h = N.of_nat (List.length (ser_records rs)) ->
+  starts_with_file_id rs = true -> stream_wf rs = true -> denote rs = Some ss1 ->
+  start_file h g (hd dummy_msg (ss_msgs ss1)) = Some (f2, g1) ->
+  rd_data rd = fit_file h rs ++ extra ->
+  (List.length (rd_data rd) + List.length (rd_sched rd) < fuel)%nat ->
+  exists rd' file' g' q ft m0 ms,
+    entry_Decode o g rd fuel = TDone (mk_dres None h (Some file') rd' g' q) /\
+    ss_msgs ss1 = m0 :: ms /\ f_inited file' = Some ft /\
+    forall i, find_slot ft Gen.Consts.c_MesgNumRecord = Some (i, true) -> (NCOMMON <= i)%nat ->
+      pick_valid (filter is_record ms) (map distance_of (nth i (f_slots file') [])) =
+        run_accum (dist_acc g) (map raw_of (filter csd_valid (filter is_record ms))) /\
+      dist_acc g' = run_accum_state (dist_acc g) (map raw_of (filter csd_valid (filter is_record ms))).
+Proof. exact stream_distance_from_state. Qed.
+
+(* FULL STATEMENT (refuted): C18_stream_distance for an ARBITRARY accumulator state g (known finding accum_per_process:
+   the accumulator is a package-level variable).  Witness: the example file below decoded a second time, from the
+   state the first Decode left: the Distances are 4097, 4099, 4101 instead of 1, 3, 5 *)
+Theorem C18_stream_distance_any_state_refuted :
+  exists g, g_dist g <> None /\
+    g = state_after (entry_Decode no_opts g_init csd_reader 200) /\
+    record_distances (entry_Decode no_opts g csd_reader 200) = Some [4097; 4099; 4294967295; 4101] /\
+    record_distances (entry_Decode no_opts g csd_reader 200) <> record_distances (entry_Decode no_opts g_init csd_reader 200).
+Proof. exact stream_distance_any_state_refuted. Qed.
+
+(* the hypotheses of the two stream theorems are satisfiable: an activity file with four records carrying
+   compressed_speed_distance (raw distances 1, 3, an invalid FF FF FF, 5), read in chunks of 4, 0, 9 bytes;
+   the decoded Distances are the running sum at the valid records, the invalid one keeps its invalid Distance *)
+Example C18_stream_example :
+  header_wf csd_hdr /\ h_dsize csd_hdr = N.of_nat (List.length (ser_records csd_stream)) /\
+  starts_with_file_id csd_stream = true /\ stream_wf csd_stream = true /\
+  (exists ss f2 g1, denote csd_stream = Some ss /\ start_file csd_hdr g_init (hd dummy_msg (ss_msgs ss)) = Some (f2, g1)) /\
+  g_dist g_init = None /\
+  record_distances (entry_Decode no_opts g_init csd_reader 200) = Some [1; 3; 4294967295; 5] /\
+  spec_accumulate 12 [1; 3; 5] = [1; 3; 5].
+Proof. exact csd_stream_example. Qed.
+
+(* PARTIAL: total_cycles / accumulated_power on streams are not stated (their accumulators never move: known finding
+   accum_mask0, C18_zero_mask_accumulates_nothing); the stream theorems hold inside the domain of C02 decode_denote. *)
 
 (* non-vacuity *)
 Example C18_example : run_accum (new_accum 12) [4090; 5; 20] = [4090; 4101; 4116] /\ spec_accumulate 12 [4090; 5; 20] = [4090; 4101; 4116].
